@@ -452,14 +452,26 @@ func ruleTxnBatcherValidation(w *core.World, r *core.Report) {
 			n++
 			core.Walk(s.Args()[0], func(v ssa.Value) bool {
 				if ia, ok := v.(*ssa.IndexAddr); ok {
-					if isConstInt(0)(ia.Index) && ia.X == keysV {
+					// the key list itself, or a helper's parameter that stands for it
+					isKeys := func(x ssa.Value) bool {
+						if x == keysV {
+							return true
+						}
+						for _, a := range argValues(x, put) {
+							if core.Unwrap(a) == keysV {
+								return true
+							}
+						}
+						return false
+					}
+					if isConstInt(0)(ia.Index) && isKeys(ia.X) {
 						first = true
 					}
-					if sl, ok := ia.X.(*ssa.Slice); ok && sl.X == keysV && isConstInt(1)(sl.Low) && sl.High == nil && forwardRangeIndex(ia.Index) {
+					if sl, ok := ia.X.(*ssa.Slice); ok && isKeys(sl.X) && isConstInt(1)(sl.Low) && sl.High == nil && forwardRangeIndex(ia.Index) {
 						rest = true
 					}
 					// or an index loop from 1 to len(keys)
-					if ia.X == keysV && indexCoversFrom(ia.Index, 1, keysV) {
+					if isKeys(ia.X) && indexCoversFrom(ia.Index, 1, ia.X) {
 						rest = true
 					}
 				}
